@@ -784,10 +784,10 @@ def gen_script(rng, cfg=None):
               "version": rng.choice(["1.0", "1.0", "1.1", "0.3", "10.25"]),
               "target": None, "type": None, "includes": [], "items": []}
     if rng.random() < 0.5:
-        dev = rng.choice(["fock", "gaussian", "X8_01", "tf", "fock.sim", "chip2", "a_b"])
+        dev = rng.choice(["fock", "gaussian", "X8_01", "tf", "fock.sim", "chip2", "a_b", "Borealis", "TD2"])
         script["target"] = (dev, gen_meta_args(rng, scope, cfg) if rng.random() < 0.6 else None)
     if rng.random() < 0.25:
-        script["type"] = (rng.choice(["foo", "sampling", "tdmx"]), gen_meta_args(rng, scope, cfg) if rng.random() < 0.6 else None)
+        script["type"] = (rng.choice(["foo", "sampling", "tdmx", "Sampling", "TDM", "Gbs_2", "tDm"]), gen_meta_args(rng, scope, cfg) if rng.random() < 0.6 else None)
     n = rng.randrange(1, cfg.get("max_items", 10) + 1)
     for _ in range(n):
         r = rng.random()
